@@ -23,7 +23,9 @@ NOT_APPLICABLE = {
            "split_to/unsplit state machines for which CBMC returned no verdict even on a 33-octet stream with 3 symbolic octets "
            "(design-phase probes, repeated with the build-phase transformations). Only decryptor *construction* is decidable (claimed under C04).",
     "C08": _KANI + "lock/unlock runs S2K + CFB/AEAD over Bytes/BytesMut buffers; parsing a 26-octet locked secret-key body alone exceeded "
-           "12 GB (c08_usage_* probes, kept in harness/c08_secret.rs). Finding F3 (usage octet 255) was found by reading, confirmed natively and fixed.",
+           "12 GB. What is decidable is claimed under C05: usage-octet preservation by the parser (c08_usage_*, 28 GB group; finding F3), the 16-bit checksum "
+           "decision (c08_checksum_*) and unlock for usage 255 under modelled KDF/CFB/SHA-1 (c08_unlock_usage_255); the lock->serialise->parse->unlock "
+           "round trip, wrong-password behaviour, AEAD (253) and SHA-1 (254: exhausts 45 GB) protection are not.",
     "C16": _KANI + "the cleartext framework is str-iterator code (split_inclusive, trim_end_matches, String building); a 3-octet "
            "dash_escape/unescape probe did not finish in 7 min (design phase) and Utf8/str kernels of 2 octets ran out of 14 GB in the build phase.",
     "C18": _KANI + "recipient handling lives in Message::decrypt*/TheRing::find_session_key, which need a parsed Message (see C01) and real "
